@@ -11,3 +11,6 @@ pub use compiler_state::*;
 pub use source_files::*;
 pub use watch::handle_watch_command;
 pub use with_duration::*;
+
+#[cfg(isographlabs_isograph_verif)]
+pub mod verif;
